@@ -20,7 +20,8 @@ def _hist(h):
 
 def run(tier, seed):
     chk = Check("C06", tier, seed, "other")
-    for k in c11_registry.C06_KERNELS + [c11_registry.Enter(), c11_registry.Exit()]:
+    from ..kernels import c06_keys
+    for k in c11_registry.C06_KERNELS + [c11_registry.Enter(), c11_registry.Exit()] + c06_keys.KERNELS:
         chk.add_kernel(run_kernel(k, tier))
     ok, sites, failing, inv = frame.rule_shared(ALLOWED_WRITERS)
     chk.add_rule("C06.S.shared", ok, sites, failing, detail="no call-time writes to module-level state other than the registry (under its lock), functools caches and thread-locals")
@@ -72,7 +73,7 @@ def run(tier, seed):
     chk.add_bounded("outcome (values, alpha-normalised graph text or exception class) of every pool call after a history vs. in a fresh interpreter", f"{n} pool calls; {len(hists)} histories ({'one per first call, followed by the whole pool in random order' if tier == 'quick' else 'all ordered pairs + 200 random histories of length 3-8'})",
                     total, n * n if tier != "quick" else total, failures=fails, exhaustive=(tier != "quick"), samples=[{"history": hists[0][:5], "cold_outcome_of_call_0": cold.get(0)}])
     chk.trusted += ["functools.cache stores only returned values (exceptions are not cached)"]
-    chk.assumptions += ["histories beyond the sampled ones only through the paper induction of Appendix A3 over: key adequacy (bounded only), balanced context stacks (proved), no other shared state (rule)"]
+    chk.assumptions += ["histories beyond the sampled ones only through the paper induction of Appendix A3 over: key adequacy (tensor / typed-scalar key equalities proved; _freeze_value's recursion bounded only), balanced context stacks (proved), no other shared state (rule)"]
     chk.explanation = "context restoration (DependOn.__exit__, _enter/_exit) proved from the real AST; no-other-shared-state by rule; key adequacy / cache invariant evaluated as warm-vs-cold outcome equality on enumerated histories (bounded)"
     return chk
 
